@@ -692,6 +692,9 @@ class TorchBackendProvider(BackendProvider):
             if isinstance(b_val, (int, numpy.integer)) and b_val < 0:
                 a = a.float()
             return a.pow(b)
+        if isinstance(b, torch.Tensor) and b.is_floating_point() and isinstance(a, (int, float, numpy.number)):
+            # <number>^<tensor>: stay in torch so the exponent keeps its gradient and its dtype
+            return torch.pow(float(a), b)
         # For numpy arrays or scalars
         a_val = float(a) if isinstance(a, (int, numpy.integer)) else a
         b_val = b.item() if isinstance(b, torch.Tensor) and b.ndim == 0 else (b.cpu().numpy() if isinstance(b, torch.Tensor) else b)
